@@ -1038,6 +1038,13 @@ namespace bloch::runtime {
             for (auto& c : program.classes)
                 if (c && c->typeParameters.empty())
                     byName.emplace(c->name, c.get());
+            // A base written with type arguments (class IntLeaf extends Leaf<int>) is specialised
+            // while this table is built; the specialisation copies the layout of the template's
+            // own base, so that one has to be complete first as well.
+            std::unordered_map<std::string, compiler::ClassDeclaration*> templates;
+            for (auto& c : program.classes)
+                if (c && !c->typeParameters.empty())
+                    templates.emplace(c->name, c.get());
             std::unordered_map<std::string, bool> placed;
             std::function<void(compiler::ClassDeclaration*)> place =
                 [&](compiler::ClassDeclaration* c) {
@@ -1045,11 +1052,19 @@ namespace bloch::runtime {
                         return;
                     placed[c->name] = true;
                     std::string baseName;
-                    if (auto named = dynamic_cast<NamedType*>(c->baseType.get())) {
-                        if (named->typeArguments.empty() && !named->nameParts.empty())
+                    compiler::ClassDeclaration* cur = c;
+                    for (size_t hops = 0; cur && hops <= templates.size(); ++hops) {
+                        auto named = dynamic_cast<NamedType*>(cur->baseType.get());
+                        if (named && !named->typeArguments.empty() && !named->nameParts.empty()) {
+                            auto tIt = templates.find(named->nameParts.back());
+                            cur = tIt != templates.end() ? tIt->second : nullptr;
+                            continue;
+                        }
+                        if (named && !named->nameParts.empty())
                             baseName = named->nameParts.back();
-                    } else if (!c->baseName.empty()) {
-                        baseName = c->baseName.back();
+                        else if (!cur->baseName.empty())
+                            baseName = cur->baseName.back();
+                        break;
                     }
                     auto it = byName.find(baseName);
                     if (it != byName.end())
